@@ -87,7 +87,8 @@ func corruptionLexemes() []string {
 			out = append(out, l)
 		}
 	}
-	return append(out, "'unterminated", "0x", "`q", "+", "and", "$left.k")
+	// characters that are no token and no white space (a scanner that skips one accepts a source with a token dropped)
+	return append(out, "'unterminated", "0x", "`q", "+", "and", "$left.k", "\u2020", "\u0120", "\u2209", "\u00a0", "\u0085", "\u200b", "\x0c", "\x00", "#", "\\")
 }
 
 // corruptionSweep applies every single-token edit (thorough: every pair of edits on
